@@ -62,12 +62,22 @@ class Unit:
             raise Undecided('%s: bad unit header: %s' % (path, e))
         self.text = txt
         m = self.meta
-        if isinstance(m.get('extract'), str):
-            # shared extraction recipe: a python literal list in a file relative to /verif
-            try:
-                m['extract'] = ast.literal_eval(open(os.path.join(VERIF, m['extract'])).read())
-            except Exception as e:
-                raise Undecided('%s: bad extract recipe %s: %s' % (path, m['extract'], e))
+        ex = m.get('extract')
+        if isinstance(ex, str):
+            ex = [ex]
+        if ex is not None:
+            # shared extraction recipes: a string entry is the path (relative to /verif) of a file holding a python
+            # literal list of recipes; several may be combined with inline recipes
+            out = []
+            for e in ex:
+                if isinstance(e, str):
+                    try:
+                        out += ast.literal_eval(open(os.path.join(VERIF, e)).read())
+                    except Exception as err:
+                        raise Undecided('%s: bad extract recipe %s: %s' % (path, e, err))
+                else:
+                    out.append(e)
+            m['extract'] = out
         self.kind = m.get('kind', 'proof')
         self.mode = m.get('mode', 'plain')
         self.tier = m.get('tier', 'quick')
